@@ -69,12 +69,16 @@ class Scenario:
         self.loss_offset = kw.get("loss_offset", 0)       # added to every loss value (C20 scenarios)
         self.seed = kw.get("seed", 0)
         self.tables = kw.get("tables", "random")          # "random" | "spec:scalar" | "spec:multi" (IncExplainer.tla)
+        self.out_scale = kw.get("out_scale", 1)           # magnitude of the model outputs (exact factor)
+        self.loss_scale = kw.get("loss_scale", 1)         # magnitude of the loss values (exact factor)
         self.default_value = kw.get("default_value", None)   # DefaultImputer: one value for all features (None: (i+1)/2)
         self.companion = kw.get("companion", False)       # a second live explainer (own parts) is driven in between
 
     def to_json(self):
         d = dict(self.__dict__)
         d["alpha"] = None if self.alpha is None else str(self.alpha)
+        d["out_scale"] = str(self.out_scale)
+        d["loss_scale"] = str(self.loss_scale)
         d["stream"] = [[[str(v) for v in xs], y, n, u] for (xs, y, n, u) in self.stream]
         d["faults"] = {str(k): v for k, v in self.faults.items()}
         return d
@@ -83,6 +87,8 @@ class Scenario:
     def from_json(d):
         d = dict(d)
         d["alpha"] = None if d["alpha"] is None else F(d["alpha"])
+        d["out_scale"] = F(d.get("out_scale", 1))
+        d["loss_scale"] = F(d.get("loss_scale", 1))
         d["stream"] = [([F(v) for v in xs], y, n, u) for (xs, y, n, u) in d["stream"]]
         d["faults"] = {int(k): v for k, v in d["faults"].items()}
         if d.get("storage") is not None:
@@ -90,9 +96,9 @@ class Scenario:
         return Scenario(**d)
 
     def key(self):
-        return "%s d=%d names=%s n=%d dyn=%s alpha=%s bigger=%s storage=%s imputer=%s nlab=%d num=%s seed=%d" % (
+        return "%s d=%d names=%s n=%d dyn=%s alpha=%s bigger=%s storage=%s imputer=%s nlab=%d num=%s scale=%s/%s seed=%d" % (
             self.cls, self.d, self.names, self.n_inner, self.dynamic, self.alpha, self.bigger, self.storage,
-            self.imputer, self.nlab, self.numeric, self.seed)
+            self.imputer, self.nlab, self.numeric, self.out_scale, self.loss_scale, self.seed)
 
 
 def make_storage(spec, store_targets):
@@ -174,14 +180,15 @@ def build(sc):
     def raw_model(x):
         v = xvec(x)
         inter = v[0] * v[-1] if not sc.ignore_feature or sc.ignore_feature not in (1, d) else 0
+        osc = F(sc.out_scale)
         if nlab == 1:
-            return {"output": conv(sum(W[0][i] * v[i] for i in range(d)) + C[0] * inter + F(1, 3))}
+            return {"output": conv(osc * (sum(W[0][i] * v[i] for i in range(d)) + C[0] * inter + F(1, 3)))}
         out = {}
         for l in range(nlab):
             if l == nlab - 1 and nlab >= 2 and F(v[0]) < 0 and sc.ignore_feature != 1:
                 continue       # the last label only appears for some inputs: label sets grow over time
             s = sum(W[l][i] * v[i] for i in range(d)) + C[l] * inter
-            out[l] = conv(s * s + l + F(1, 2))
+            out[l] = conv(osc * (s * s + l + F(1, 2)))
         return out
 
     if sc.tables.startswith("spec:"):
@@ -213,8 +220,8 @@ def build(sc):
             else:
                 val = sum(F((k + 1) * (2 - y_true)) * F(pv) for k, pv in y_pred.items()) - F(y_true * len(y_pred))
         else:
-            val = sum((F(y_true) * (2 if k == "output" else k + 1) - F(pv)) ** 2 for k, pv in y_pred.items()) \
-                - F(y_true, 7) + len(y_pred) + sc.loss_offset
+            val = F(sc.loss_scale) * (sum((F(y_true) * (2 if k == "output" else k + 1) - F(pv)) ** 2 for k, pv in y_pred.items())
+                                      - F(y_true, 7) + len(y_pred)) + sc.loss_offset
         val = conv(val)
         rec.order.append("l")
         rec.losses.append({"y": y_true, "pred": sorted([[lab_id(k), red(pv)] for k, pv in y_pred.items()]),
@@ -411,6 +418,7 @@ def run_scenario(sc, tape_mode="log", script=None, keep_raw=False, provider=None
 
     cur = {"x": None, "y": None}
     calls = []
+    max_loss = [0.0]
     raws = []
     rows_log = []
     tape_log = []
@@ -500,6 +508,11 @@ def run_scenario(sc, tape_mode="log", script=None, keep_raw=False, provider=None
             if outcome == "err" and pre["seen"] >= 1 and call["nrows"] == 0:
                 call["outcome"] = "exc"      # the imputer found the storage empty: a naturally occurring fault
                 call["exc"] = "EmptyStorage " + exc_name
+            for l_ in rec.losses:
+                try:
+                    max_loss[0] = max(max_loss[0], abs(float(l_["raw"])))
+                except Exception:
+                    pass
             if keep_raw:
                 raws.append(proj.raw())
                 rows_log.append((list(rows_after) if rows_after is not None else None, ys_after))
@@ -513,7 +526,7 @@ def run_scenario(sc, tape_mode="log", script=None, keep_raw=False, provider=None
                 break
         tape_log = list(tape.log)
     trace["calls"] = calls
-    return trace, {"raws": raws, "env": env, "tape": tape_log, "rows_after": rows_log}
+    return trace, {"raws": raws, "env": env, "tape": tape_log, "rows_after": rows_log, "max_loss": max_loss[0]}
 
 
 def _offset_ok(ex, sc):
@@ -604,6 +617,8 @@ def random_scenario(rng, cls=None, quickness=1, **force):
         upd = rng.random() < 0.9 or i == 0
         stream.append((xs, y, n_over, upd))
     kw = dict(cls=cls, d=d, names=names, n_inner=n_inner, dynamic=dynamic, alpha=alpha, companion=rng.random() < 0.3,
+              out_scale=rng.choice([1, 1, 1, F(1, 10 ** 10), F(1, 10 ** 6), 10 ** 7]),
+              loss_scale=rng.choice([1, 1, 1, F(1, 10 ** 9), 10 ** 8]),
               bigger=(cls == "sage" and rng.random() < 0.3), storage=storage,
               store_targets=rng.random() < 0.5, imputer=imputer, nlab=nlab, model_seed=rng.randrange(10 ** 6),
               stream=stream, seed=rng.randrange(2 ** 31))
